@@ -22,7 +22,8 @@ ASSUMPTIONS = ['size_t arithmetic does not wrap: Props.C01.intermediates_le_prod
 
 def harness_specs(tier):
     return [dict(name='h_c01', src='h_c01.cpp', flavour='fast'),
-            dict(name='h_c01ct', src='h_c01ct.cpp', flavour='fast')]     # generated: harness/gen_c01_ct.py
+            dict(name='h_c01ct', src='h_c01ct.cpp', flavour='fast'),     # generated: harness/gen_c01_ct.py
+            dict(name='h_c01s', src='h_c01s.cpp', flavour='fast')]      # user-chosen strides containers
 
 
 CT_TABLE = [[2, 3, 4], [3, 2], [4], [2, 1, 3], [1], [3, 3], [2, 2, 2, 2], [4, 3]]     # = TABLE of harness/gen_c01_ct.py
@@ -87,6 +88,17 @@ def gen(tier, rng):
             off = offset_py(idx, st)
             for k in ('ct', 'ctidx'):
                 yield Case('offset idx=%s strides=%s kind=%s' % (fmt(idx), fmt(st), k), 'h_c01ct', oracle='ok %d' % off, nontrivial=nt, tags=['offset', 'kind=' + k])
+    # ndarray_t with a user-chosen strides container whose type differs from what compute_strides deduces for the shape
+    # (base_ndarray_t::compute_strides converts element by element; seeded change C01-3), both layouts: strides() and the
+    # buffer position of every element.  (strides() of a column-major array reports the row-major strides: C20 finding.)
+    for s in [x for x in shapes(3, 3 if tier == 'quick' else 4, min_rank=1)]:
+        n = prod(s); st = strides_py(s); nt = sum(1 for e in s if e > 1) >= 2
+        fst = [prod(s[:k]) for k in range(len(s))]
+        for lay in ('row', 'col'):
+            pos = [offset_py(i, st if lay == 'row' else fst) for i in all_idx(s)]
+            for k in ('a_al', 'a_ai', 'a_vu', 'v_vl', 'v_vi'):
+                yield Case('nd_strides kind=%s layout=%s shape=%s' % (k, lay, fmt(s)), 'h_c01s', oracle='ok strides=%s pos=%s' % (fmt(st), fmt(pos)), model=False,
+                           nontrivial=nt, tags=['nd_strides', 'kind=' + k, lay])
     # large extents, index math only
     nlarge = 400 if tier == 'quick' else 5000
     for t in range(nlarge):
